@@ -924,6 +924,30 @@ pub fn pattern_with(rng: &mut Rng, forced: Option<u64>) -> (Pos, &'static str) {
                 }
                 return (p, name);
             }
+            25 => {
+                // an a- or h-pawn on its home square with the double push still to be played; enemy pawns stand on the
+                // squares a one-bit shift of the landing square wraps to (h3 for a4, a5 for h4) and elsewhere on the far
+                // edge, none beside the landing square; few other men, so that the push is played often
+                name = "edge_double_push_pending";
+                let f = if rng.chance(1, 2) { 0 } else { 7 };
+                p.sq[mk(f, 1).unwrap() as usize] = Some((Kind::P, Col::W));
+                let d = mk(f, 3).unwrap() as i32;
+                let w = if f == 0 { d - 1 } else { d + 1 };
+                p.sq[w as usize] = Some((Kind::P, Col::B));
+                if rng.chance(1, 2) {
+                    let t = mk(7 - f, rng.range(2, 5) as i32).unwrap() as usize;
+                    if p.sq[t].is_none() {
+                        p.sq[t] = Some((Kind::P, Col::B));
+                    }
+                }
+                place_random(&mut p, rng, Kind::K, Col::W);
+                place_random(&mut p, rng, Kind::K, Col::B);
+                for _ in 0..rng.below(3) {
+                    let c = if rng.chance(1, 2) { Col::W } else { Col::B };
+                    place_random(&mut p, rng, Kind::N, c);
+                }
+                p.stm = if rng.chance(3, 4) { Col::W } else { Col::B };
+            }
             12 => {
                 // the side to move is in check by a distant slider and has (almost) a single reply of a chosen
                 // class: pawn double-step / single-step interposition, knight interposition, capture of the checker
